@@ -53,6 +53,18 @@ func main() {
 		os.Exit(cmdCheck(os.Args[2:]))
 	case "replay":
 		os.Exit(cmdReplay(os.Args[2:]))
+	case "witness":
+		// selftest aid: run the node-level witness search for the given function on the current tree
+		rr := witnessSearchNode(&Obligation{Name: "selftest/" + os.Args[2], Func: os.Args[2]})
+		fmt.Println(rr["confirmed"], firstLines(fmt.Sprint(rr["output"]), 6))
+	case "weaken":
+		// debugging aid: write the quantifier-free weakening (replay model finding) of a saved query
+		b, err := os.ReadFile(os.Args[2])
+		if err != nil {
+			fmt.Fprintln(os.Stderr, err)
+			os.Exit(2)
+		}
+		os.WriteFile(os.Args[3], []byte(modelQuery(string(b))), 0o644)
 	default:
 		fmt.Fprintln(os.Stderr, "unknown command", os.Args[1])
 		os.Exit(2)
